@@ -46,7 +46,15 @@ func IntegerSquareRootPrysm(n uint64) uint64 {
 		return v
 	}
 
-	return uint64(math.Sqrt(float64(n)))
+	// float64 carries 53 bits: above 2^52 the estimate can be off by one, and it is 2^32 at the top of the domain
+	x := uint64(math.Sqrt(float64(n)))
+	for x > math.MaxUint32 || x*x > n {
+		x--
+	}
+	for x < math.MaxUint32 && (x+1)*(x+1) <= n {
+		x++
+	}
+	return x
 }
 
 func IsPowerOfTwo(n uint64) bool {
